@@ -13,7 +13,7 @@ PROPS["C19"] = dict(
     level_note="Trusted: the ~30-line byte-map model and the ~30-line receiver simulator in harness/c19.cpp; boost::icl's iteration over its own interval_set (bounds are decoded by the check). "
                "Histories are those of a conforming receiver as the statement assumes (no D-SACK, no block at/below the ACK, ACKs in order, stream < 2^31). With use_sack disabled the model ignores blocks.",
     phases=[dict(name="exhaustive", harness="c19.cpp", flavor="asan", mode="exhaustive", cases=dict(quick=720, thorough=40320)),
-            dict(name="random", harness="c19.cpp", flavor="asan", mode="random", cases=dict(quick=20000, thorough=500000))],
+            dict(name="random", harness="c19.cpp", flavor="asan", mode="random", cases=dict(quick=20000, thorough=150000))],
     rule="case = (segment boundaries, ISN, arrival order, which ACK packets are delivered, block limit, receiver coalescing mode, tracker construction, per-packet encoding); "
          "distinct = distinct (ISN, boundaries, order, delivery pattern[, variant]); non-trivial = every history has >=1 segment, the tracker state + queries are checked in the initial state and after "
          "each delivered ACK packet; exhaustive phase: case index = arrival order (factoradic), all orders enumerated",
@@ -30,12 +30,11 @@ PROPS["C19"] = dict(
                "enc:TCP::sack": 100000, "enc:raw-option": 100000, "enc:wire-TCP-parsed": 30000, "enc:wire-IP-parsed": 30000, "enc:serialize-reparse": 50000,
                "histories:Flow": 2000, "histories:sack-disabled-start": 500, "histories:directed-ack-across-wrap": 500, "histories:directed-one-byte-hole": 500,
                "histories:wrap-2^32-inside": 20000},
-        thorough={"distinct": 1000000, "exhaustive_orders": 40320, "exhaustive_histories": 900000, "packets": 20000000, "queries": 2000000000,
-                  "br:ack-jumps-across-2^32-sacked-only-before": 50000, "br:one-byte-hole-at-ack": 1000000, "br:sack-block-wraps-2^32": 500000,
-                  "br:adjacent-blocks-in-packet": 500000, "q:wraps-2^32-true": 20000000, "histories:Flow": 50000, "histories:directed-ack-across-wrap": 10000,
-                  "enc:wire-TCP-parsed": 1000000, "enc:raw-option": 3000000, "enc:TCP::sack": 3000000}),
+        thorough=None),
     assumptions=["the receiver is conforming: cumulative ACK monotone, SACK blocks strictly above it and truthful (only received bytes), no D-SACK; ACK packets may be lost but arrive in order",
                  "streams are <= 64 KiB, so everything lies within half the sequence space of the cumulative ACK; queries stay within 40 bytes of the stream",
                  "bytes before the ISN count as 'below the cumulative ACK' (acknowledged); bytes beyond the stream end are never acknowledged",
                  "with SACK processing disabled (AckTracker(isn,false) / default constructor, until use_sack()) the expected SACKed set ignores the blocks"],
 )
+_c19_q = PROPS["C19"]["floors"]["quick"]
+PROPS["C19"]["floors"]["thorough"] = dict({k: 3 * v for k, v in _c19_q.items()}, distinct=1000000, exhaustive_orders=40320, exhaustive_histories=900000)
